@@ -60,7 +60,8 @@ def PES.fresh : PES :=
     header_data := none }
 
 /-- `PES.unpack`.  The optional header is recognised heuristically: high nibble of the byte after
-    the 6-byte prefix equals 8 AND the payload is exactly `PES_length + 6` bytes long. -/
+    the 6-byte prefix equals 8 AND the payload is exactly `PES_length + 6` bytes long (and there are at least
+    3 bytes after the prefix). -/
 def PES.unpack (t : PES) (buffer : Bytes) : PES × R Unit :=
   match Pkt.unpack t.pkt buffer with
   | (p, .error e) => ({ t with pkt := p }, .error e)
@@ -71,6 +72,11 @@ def PES.unpack (t : PES) (buffer : Bytes) : PES × R Unit :=
     | .ok [prefix1, prefix2, streamid, peslength] =>
       let t := { t with streamid := streamid }
       if prefix1 * 65536 + prefix2 ≠ 1 then (t, .error .generic) else
+      -- fewer than 3 bytes after the 6-byte prefix cannot hold the optional header: no peek
+      if p.payload.length < 9 then
+        ({ t with extension_w1 := none, extension_w2 := none, header_data := none,
+                  pesdata := p.payload.drop 6 }, .ok ())
+      else
       match structUnpackFrom PES_unpack_fmt1 p.payload 6 with
       | .error e => (t, .error e)
       | .ok [opt, _misc, _hl] =>
